@@ -139,8 +139,17 @@ def main(argv=None):
         print(f"ERROR: no contract scenarios registered for {prop}")
         return 3
     errors = [r for r in results if r["error"]]
+    # a loop that carries no contract (the loop under contract was moved into another function, or a loop was added) is a
+    # limit of the tool on THIS source, i.e. undecided -- not a crash of the checker
+    loop_limit = [r for r in errors if re.search(r"needs a loop contract|without loop contract", r["error"] or "")]
+    errors = [r for r in errors if r not in loop_limit]
     # ---- aggregate obligations by name
     obs = {}
+    for r in loop_limit:
+        nm = f"{prop}/{r['scenario']}[{r['cfg']}]/inv-form:loop-without-contract"
+        obs[nm] = {"name": nm, "kind": "inv-form", "bounded": r.get("bounded"), "scenario": r["scenario"], "cfg": r["cfg"],
+                   "vcs": [{"name": nm, "kind": "inv-form", "status": "refuted", "backend": "none", "time": 0.0,
+                            "reason": "loop restructured: " + (r["error"] or "")[:200] + " -- its contract has to be re-attached (no verdict)"}]}
     for r in results:
         for o in r["obligations"]:
             e = obs.setdefault(o["name"], {"name": o["name"], "kind": o["kind"], "vcs": [], "bounded": r.get("bounded"), "scenario": r["scenario"], "cfg": r["cfg"]})
